@@ -18,6 +18,7 @@ Inductive ctx :=
   | CDocCooked    (* inside a triple-quoted docstring that stays cooked although the text contains a backslash *)
   | CFstrDQ       (* literal part of a double-quoted f-string *)
   | CTomlBasic    (* inside a TOML basic string *)
+  | CNumber       (* a NUMBER token *)
   | CMarkdown     (* README text *)
   | CComment      (* a Python / TOML comment *)
   | CCode         (* bare code *)
@@ -28,6 +29,7 @@ Inductive san :=
   | SNone | SEsc (* utils.remove_string_escapes *) | SRepr (* repr *) | SReprEsc (* repr after remove_string_escapes *)
   | SSnake (* PythonIdentifier / snake_case *) | SPascal (* ClassName / pascal_case *) | SKebab | SUpperSnake (* enum member keys *)
   | SSanitize (* PythonIdentifier(skip_snake_case=True): the raw-name fallback for names that collide after snake-casing *)
+  | SNumber (* str(int(float(text))) / str(float(text)): the validator's reading of a numeric default, printed as a number *)
   | SRejects (* text with characters outside [A-Za-z0-9_-] never reaches the output: the piece is rejected with a diagnostic *)
   | SUnknown.
 
@@ -36,13 +38,13 @@ Record site := { s_slot : string; s_file : string; s_ctx : ctx; s_san : san }.
 Definition ctx_eqb (a b : ctx) : bool :=
   match a, b with
   | CIdent, CIdent | CPath, CPath | CDQ, CDQ | CSQ, CSQ | CDoc, CDoc | CDocCooked, CDocCooked | CFstrDQ, CFstrDQ
-  | CTomlBasic, CTomlBasic | CMarkdown, CMarkdown | CComment, CComment | CCode, CCode | CUnknown, CUnknown => true
+  | CTomlBasic, CTomlBasic | CNumber, CNumber | CMarkdown, CMarkdown | CComment, CComment | CCode, CCode | CUnknown, CUnknown => true
   | _, _ => false
   end.
 Definition san_eqb (a b : san) : bool :=
   match a, b with
   | SNone, SNone | SEsc, SEsc | SRepr, SRepr | SReprEsc, SReprEsc | SSnake, SSnake | SPascal, SPascal | SKebab, SKebab
-  | SUpperSnake, SUpperSnake | SSanitize, SSanitize | SRejects, SRejects | SUnknown, SUnknown => true
+  | SUpperSnake, SUpperSnake | SSanitize, SSanitize | SNumber, SNumber | SRejects, SRejects | SUnknown, SUnknown => true
   | _, _ => false
   end.
 
@@ -54,7 +56,7 @@ Definition field_prefix : str := [102;105;101;108;100;95].   (* config.field_pre
 
 Definition image (sa : san) (p : str) : str :=
   match sa with
-  | SNone | SUnknown | SRejects => p
+  | SNone | SUnknown | SRejects | SNumber => p
   | SSanitize => python_identifier p field_prefix true
   | SEsc => escape_dq p
   | SRepr => py_repr p
@@ -122,6 +124,8 @@ Definition inert_char (c : N) : bool := (128 <=? c) || is_word c || (c =? 45).
 (* the alphabet a validated slot accepts (openapi.py _PATH_PARAM_REGEX: letters, digits, underscore, dash) *)
 Definition pathparam_char (c : N) : bool :=
   ((48 <=? c) && (c <=? 57)) || ((65 <=? c) && (c <=? 90)) || ((97 <=? c) && (c <=? 122)) || (c =? 95) || (c =? 45).
+(* plain decimal text: the domain on which number normalisation is modelled (as the identity) *)
+Definition number_char (c : N) : bool := ((48 <=? c) && (c <=? 57)) || (c =? 46) || (c =? 45).
 (* delimiters that the raw-name fallback keeps *)
 Definition raw_delim (c : N) : bool := (c =? 32) || (c =? 45) || (c =? 46).
 
@@ -135,6 +139,8 @@ Definition slot_guard (s : site) (p : str) : bool :=
     | _ => true                          (* identifier images are inert in every string context *)
     end
   else if match sa with SRejects => true | _ => false end then forallb pathparam_char p
+  else if match sa with SNumber => true | _ => false end then
+    match s_ctx s with CNumber | CDoc => forallb number_char p | _ => false end
   else
     match s_ctx s with
     | CIdent | CPath => match sa with
@@ -155,7 +161,7 @@ Definition slot_guard (s : site) (p : str) : bool :=
 
 (* run-time-meaningful text must come back character for character *)
 Definition slot_verbatim (s : site) (p : str) : bool :=
-  if ident_san (s_san s) then true else match s_san s with SSanitize | SRejects => true | _ => str_eqb (site_value (s_san s) p) p end.
+  if ident_san (s_san s) then true else match s_san s with SSanitize | SRejects | SNumber => true | _ => str_eqb (site_value (s_san s) p) p end.
 
 (* ---- which (context, sanitiser) combinations are acceptable ---- *)
 Inductive cls := KOk | KNarrow | KNever.
@@ -166,10 +172,11 @@ Definition site_class (c : ctx) (sa : san) : cls :=
   | CComment | CCode | CUnknown => KNever
   | _ =>
     if ident_san sa then
-      match c with CFstrDQ => KNever | _ => KOk end
+      match c with CFstrDQ | CNumber => KNever | _ => KOk end
     else
       match sa, c with
       | SRejects, (CIdent | CPath | CDQ | CSQ | CDoc) => KOk
+      | SNumber, (CNumber | CDoc) => KOk
       | SSanitize, (CIdent | CPath) => KNarrow
       | SSanitize, (CDQ | CSQ | CDoc) => KOk
       | SEsc, (CDQ | CTomlBasic | CDoc) => KOk
@@ -193,26 +200,49 @@ Fixpoint field_of (s : string) : string :=
 (* Sites of the UNCHANGED tree that are safe only on a narrow payload domain. Each row is a known finding
    (id in the last column, listed in /verif/known_findings.json); a site that needs a narrow guard and is not listed here makes
    all_sites_safe false. Keyed by (pydantic field, file kind, context, sanitiser). *)
-Definition known_narrow : list (string * string * ctx * san * string) := [
-  ("Schema.description", "models/*.py", CDoc, SNone, "desc_code_exec");
-  ("Schema.description", "api/*/*.py", CDoc, SNone, "desc_code_exec");
-  ("Schema.example", "models/*.py", CDoc, SNone, "desc_code_exec");
-  ("Schema.example", "api/*/*.py", CDoc, SNone, "desc_code_exec");
-  ("Info.version", "setup.py", CDQ, SNone, "meta_injection");
-  ("Info.version", "pyproject.toml", CTomlBasic, SNone, "meta_injection");
-  ("OpenAPI.paths.key", "api/*/*.py", CDQ, SNone, "path_injection");
-  ("RequestBody.content.key", "api/*/*.py", CDQ, SNone, "content_type_injection");
-  ("Schema.properties.key", "models/*.py", CFstrDQ, SEsc, "const_fstring");
-  ("Schema.const", "models/*.py", CFstrDQ, SReprEsc, "const_fstring");
-  ("Schema.properties.key", "models/*.py", CIdent, SSanitize, "raw_fallback");
-  ("Parameter.name", "api/*/*.py", CIdent, SSanitize, "raw_fallback")
+Definition ends_with (s suf : string) : bool :=
+  let n := String.length s in let m := String.length suf in
+  Nat.leb m n && String.eqb (substring (n - m) m s) suf.
+
+(* columns: pydantic field, required suffix of the slot label ("" = any), file kind, context, sanitiser, finding id.
+   Hand-quoted default values (sanitiser SNone inside quotes) are acceptable only for the uuid kind: UUID() rejects every text that contains
+   a quote or a backslash (its alphabet is hex digits, '-', '{', '}', 'urn:', 'uuid:', '_', '+', and - through int() - surrounding
+   WHITESPACE, newline included: that part is the finding uuid_default_whitespace). A hand-quoted default of any other kind is NOT listed:
+   dateutil's isoparse accepts any single character between date and time.
+   A literal-enum default is printed with repr into the Attributes / Args docstring (protocol.py to_docstring): a triple quote in the value ends
+   the docstring (finding literal_enum_default_docstring).
+   ids starting with "validated_by_" are not findings: the validator of the kind cannot let a triple quote through (checked by the oracle). *)
+Definition known_narrow : list (string * string * string * ctx * san * string) := [
+  ("Schema.description", "", "models/*.py", CDoc, SNone, "desc_code_exec");
+  ("Schema.description", "", "api/*/*.py", CDoc, SNone, "desc_code_exec");
+  ("Schema.example", "", "models/*.py", CDoc, SNone, "desc_code_exec");
+  ("Schema.example", "", "api/*/*.py", CDoc, SNone, "desc_code_exec");
+  ("Info.version", "", "setup.py", CDQ, SNone, "meta_injection");
+  ("Info.version", "", "pyproject.toml", CTomlBasic, SNone, "meta_injection");
+  ("OpenAPI.paths.key", "", "api/*/*.py", CDQ, SNone, "path_injection");
+  ("RequestBody.content.key", "", "api/*/*.py", CDQ, SNone, "content_type_injection");
+  ("Schema.properties.key", "", "models/*.py", CFstrDQ, SEsc, "const_fstring");
+  ("Schema.const", "", "models/*.py", CFstrDQ, SReprEsc, "const_fstring");
+  ("Schema.properties.key", "", "models/*.py", CIdent, SSanitize, "raw_fallback");
+  ("Parameter.name", "", "api/*/*.py", CIdent, SSanitize, "raw_fallback");
+  ("Schema.default", "-uuid", "models/*.py", CSQ, SNone, "uuid_default_whitespace");
+  ("Schema.default", "-uuid", "api/*/*.py", CSQ, SNone, "uuid_default_whitespace");
+  ("Schema.default", "-uuid", "models/*.py", CDoc, SNone, "validated_by_uuid");
+  ("Schema.default", "-uuid", "api/*/*.py", CDoc, SNone, "validated_by_uuid");
+  ("Schema.default", "-date", "models/*.py", CDoc, SRepr, "validated_by_isoparse");
+  ("Schema.default", "-date", "api/*/*.py", CDoc, SRepr, "validated_by_isoparse");
+  ("Schema.default", "-datetime", "models/*.py", CDoc, SRepr, "validated_by_isoparse");
+  ("Schema.default", "-datetime", "api/*/*.py", CDoc, SRepr, "validated_by_isoparse");
+  ("Schema.enum.item", "-default-member", "models/*.py", CDoc, SRepr, "literal_enum_default_docstring");
+  ("Schema.enum.item", "-default-member", "api/*/*.py", CDoc, SRepr, "literal_enum_default_docstring")
 ]%string.
 
 Definition narrow_entry (s : site) : option string :=
-  match find (fun e => match e with (f, fl, c, sa, _) =>
-                         String.eqb f (field_of (s_slot s)) && String.eqb fl (s_file s) && ctx_eqb c (s_ctx s) && san_eqb sa (s_san s) end)
+  match find (fun e => match e with (f, suf, fl, c, sa, _) =>
+                         String.eqb f (field_of (s_slot s)) && ends_with (s_slot s) suf && String.eqb fl (s_file s)
+                         && ctx_eqb c (s_ctx s) && san_eqb sa (s_san s) end)
              known_narrow with
-  | Some (_, _, _, _, id) => Some id
+  | Some (_, _, _, _, _, id) => Some id
   | None => None
   end.
 
